@@ -3,7 +3,7 @@ C01 — struct conversions move every value to the field the instructions design
 `Spec.line` describes a struct line by three orthogonal pieces (which slot, which source, which dialect) instead of
 the 35-arm match of `render_struct_line`; the theorems show the expander's line is the specified one, cell by cell.
 -/
-import O2oModel.Expand
+import O2oModel.Lemmas.Blocks
 namespace O2o
 
 namespace Spec
@@ -125,5 +125,38 @@ theorem C01_as_type (fieldTy : TS) (a : AsAttr) :
     (addAsTypeAttrs fieldTy a).map (fun m => (m.attr.action, m.appl, m.fallible)) =
       [(some ([Tok.punct '~' false, .ident "as"] ++ fieldTy), [false, false, true, true, false, false], false),
        (some ([Tok.punct '~' false, .ident "as"] ++ a.tokens), [true, true, false, false, true, true], false)] := rfl
+
+/-- C01-1 (whole body, any number of members): for a struct whose members are not flattened, the generated body is
+    exactly one line per contributing member, in declaration order (`flatLines`: each line is `renderStructLine` of that
+    member at its running position), followed by the struct-level ghost lines and `..update` — and nothing else, so no
+    other field of the result is written. Skipped members (`fieldSkipped`) are ghosts and parents on the Into side and
+    default-less ghosts on the From side. -/
+theorem C01_flat_body (ctx : ImplContext) (named : Bool) (l : List (Nat × String × Field)) (fuel : Nat)
+    (out : TS) (rest : List FieldContainer)
+    (hf : l.length + 1 < fuel) (hc : ∀ t ∈ l, t.2.2.attrs.child ctx.ty = none)
+    (h : structInitBlockInner fuel (flatContainers l) named ctx none = .ok (out, rest)) :
+    ∃ ls g, flatLines ctx ctx.structAttr.typeHint (l.map (·.2.2)) 0 = .ok ls ∧ structGhostLines ctx none = .ok g ∧
+      wrapInit ctx ctx.structAttr.typeHint named (ls ++ g ++ updateToks ctx) = .ok out ∧ rest = [] :=
+  structInitBlockInner_flat ctx named l fuel out rest hf hc h
+
+/-- the running position passed to a member's line counts only the contributing members before it -/
+theorem C01_flatLines_cons_skipped (ctx : ImplContext) (hint : TypeHint) (f : Field) (fs : List Field) (idx : Nat)
+    (h : fieldSkipped ctx f = true) : flatLines ctx hint (f :: fs) idx = flatLines ctx hint fs idx := by
+  simp [flatLines, h]
+
+theorem C01_flatLines_cons (ctx : ImplContext) (hint : TypeHint) (f : Field) (fs : List Field) (idx : Nat)
+    (h : fieldSkipped ctx f = false) :
+    flatLines ctx hint (f :: fs) idx = (do
+      let l ← renderStructLine f ctx hint idx none
+      let r ← flatLines ctx hint fs (idx + 1)
+      return l ++ r) := by
+  simp [flatLines, h]
+
+/-- non-vacuity: the flat-body premises hold for a two-member struct -/
+example : ∀ t ∈ ([(1, "a", (default : Field)), (2, "b", default)] : List (Nat × String × Field)),
+    t.2.2.attrs.child (TypePath.ofTokens [Tok.ident "A"]) = none := by
+  intro t ht
+  simp at ht
+  rcases ht with rfl | rfl <;> rfl
 
 end O2o
